@@ -540,7 +540,7 @@ def _expm_mult(ctx, A, v):
 
 
 # ------------------------------- exactness on representable dynamics, conservation (concrete only)
-@scenario('C11', 'exactness', lambda tier: [{'dims': dims, 'method': m} for dims in ([2, 2, 2], [2, 3, 2]) for m in ('tdvp1site', 'tdvp2site', 'krylov')])
+@scenario('C11', 'exactness', lambda tier: [{'dims': dims, 'method': m} for dims in ([2, 2, 2], [2, 3, 2]) for m in ('tdvp1site', 'tdvp2site', 'krylov', 'krylov_tight')])
 def exactness(ctx, dims, method):
     """NOT a solver verdict (theorems about the reference scheme): on a random complex Hermitian operator the validation run checks the property's
     own sentences numerically -- at maximal ranks the one-site / two-site integrators reproduce exp(-i t H) x0, the Krylov propagator with a full
@@ -568,9 +568,11 @@ def exactness(ctx, dims, method):
     x0 = state(rmax)
     x0d = np.asarray(x0.matricize()).reshape(-1)
     Hd0 = Hd.copy()
-    if method == 'krylov':
+    if method in ('krylov', 'krylov_tight'):
         N = Hd.shape[0]
-        out = ode.krylov(H, x0, N, h, threshold=1e-14, max_rank=64, normalize=0)
+        # 'tight': the rank cap equals the maximal TT rank of the state space -- binding for the intermediate sums, admissible for every state
+        out = ode.krylov(H, x0, N, h, threshold=1e-14, max_rank=64 if method == 'krylov' else max(rmax), normalize=0)
+        method = 'krylov'
         ref = sl.expm(-1j * h * Hd) @ x0d
         ctx.eq('krylov with a Krylov space spanning the whole state space == exp(-i h H) x0', np.asarray(out.matricize()).reshape(-1), ref, tol=1e-8)
     else:
